@@ -8,6 +8,7 @@ Open Scope string_scope.
 
 Inductive mp_disposition :=
 | MFinding (cls : string)              (* the model reproduces a listed finding of findings.d/C12.txt *)
+| MFindings (cls : list string)        (* one producer shared by several finding classes (a helper used by several modelled methods) *)
 | MFixed (cls : string)                (* repaired in /repo: the producer is switched off by a generated flag / kept for the record *)
 | MDead (theorem : string)             (* the producer cannot fire: the named theorem of Props/C12.v (or C12P.v) proves it, possibly under the stated guard *)
 | MOutsideBuild (why : string).        (* not krusty.Run / the YAML readers (other commands of the CLI) *)
@@ -18,14 +19,18 @@ Definition model_panic_map : list ((string * string * nat) * mp_disposition) := 
   (("Fs/DiskFs.v", "d_cleaned_abs", 0), MDead "C12_disk_cleaned_abs_partial (well-formed tree with a directory root)");
   (("Fs/DiskFs.v", "d_cleaned_abs", 1), MDead "C12_disk_cleaned_abs_partial (well-formed tree with a directory root)");
   (("Fs/DiskFs.v", "d_cleaned_abs", 2), MDead "C12_disk_cleaned_abs_partial (well-formed tree with a directory root)");
+  (("Res/BuildAnnot.v", "panic_on_err", 0),
+     MFindings ["panic:api/resource.(*Resource).appendCsvAnnotation:explicit-wrong-node-kind";
+                "panic:api/resource.(*Resource).enable:explicit-wrong-node-kind";
+                "panic:api/resource.(*Resource).RemoveBuildAnnotations:explicit-wrong-node-kind"]);
   (("Res/Image.v", "is_matched", 0), MFixed "panic:api/internal/image.IsImageMatched:nil-deref");
   (("Res/NameRef.v", "set_string_scalar", 0),
      MDead "C12_total_core_nameref_transform (every candidate has a non-empty name: GetValidatedMetadata at load)");
   (("Res/NameRef.v", "set_string_field", 0),
      MDead "C12_total_core_nameref_transform (every candidate has a non-empty name: GetValidatedMetadata at load)");
-  (("Res/Pipeline.v", "ignore_local", 0), MFinding "panic:api/resmap.(*Factory).FromResourceSlice:explicit-may-not-add");
+  (("Res/Pipeline.v", "ignore_local", 0), MFixed "panic:api/resmap.(*Factory).FromResourceSlice:explicit-may-not-add");
   (("Res/ResMapModel.v", "prev_ids", 0), MFinding "panic:api/resource.(*Resource).PrevIds:explicit-number-of-previous");
-  (("Res/ResMapModel.v", "ignore_local", 0), MFinding "panic:api/resmap.(*Factory).FromResourceSlice:explicit-may-not-add");
+  (("Res/ResMapModel.v", "ignore_local", 0), MFixed "panic:api/resmap.(*Factory).FromResourceSlice:explicit-may-not-add");
   (("Res/Resource.v", "prev_ids", 0), MFinding "panic:api/resource.(*Resource).PrevIds:explicit-number-of-previous");
   (("Res/Selector.v", "resource_prev_ids", 0), MFinding "panic:api/resource.(*Resource).PrevIds:explicit-number-of-previous");
   (("Yaml/Walk.v", "append_list_node", 0), MDead "C12_merge2_no_panic / C12_merge3_no_panic (no hypothesis)")
@@ -39,14 +44,20 @@ Definition mp_lookup (k : string * string * nat) : option mp_disposition :=
   match find (fun e => key_eqb (fst e) k) model_panic_map with Some e => Some (snd e) | None => None end.
 
 Definition mp_text_nonempty (d : mp_disposition) : bool :=
-  match d with MFinding s | MFixed s | MDead s | MOutsideBuild s => negb (String.eqb s "") end.
+  match d with
+  | MFinding s | MFixed s | MDead s | MOutsideBuild s => negb (String.eqb s "")
+  | MFindings l => match l with [] => false | _ => true end
+  end.
 
 Definition mp_accounted (k : string * string * nat) : bool :=
   match mp_lookup k with Some d => mp_text_nonempty d | None => false end.
 
 Definition mp_finding_classes : list string :=
-  flat_map (fun e => match snd e with MFinding c => [c] | _ => [] end) model_panic_map.
+  flat_map (fun e => match snd e with MFinding c => [c] | MFindings l => l | _ => [] end) model_panic_map.
 Definition mp_fixed_classes : list string :=
   flat_map (fun e => match snd e with MFixed c => [c] | _ => [] end) model_panic_map.
+(* entries whose producer no longer exists. An MFixed entry may outlive its producer: the owner of the
+   model removes the Panic branch when the model follows the repair, in its own time *)
 Definition mp_stale (gen : list (string * string * nat)) : list (string * string * nat) :=
-  map fst (filter (fun e => negb (existsb (key_eqb (fst e)) gen)) model_panic_map).
+  map fst (filter (fun e => match snd e with MFixed _ => false | _ => negb (existsb (key_eqb (fst e)) gen) end)
+                  model_panic_map).
